@@ -1584,7 +1584,7 @@ def _run_body(rep, seed, tier, quick, lap, cq, proof_broken, new_missing, pinned
     if not quick and cq["ok"]:
         with common.Lock("coq"):
             rc, o, e = common.sh(["coqchk", "-silent", "-o", "-Q", ".", "Cb", "Cb.C11.Properties_C11"], cwd=common.COQ, timeout=1200)
-        m = re.search(r"\* Axioms:\s*(.*?)\n\s*\n", o + "\n\n", re.S)
+        m = re.search(r"\* Axioms:\s*(.*?)\n\s*\n", o + "\n" + e + "\n\n", re.S)
         rep.coverage["coqchk"] = {"rc": rc, "axioms": (m.group(1).strip() if m else "?")}
         if rc != 0:
             rep.violation("coqchk", {"log": (o + e)[-2000:]}, "coqchk rejects the compiled closure of Properties_C11", True)
